@@ -37,6 +37,16 @@ Lemma gen_oneof_conflict_agree : model_create_field_checks_oneof = SwitchGen.cre
 Proof. vm_compute. reflexivity. Qed.
 Lemma gen_leaf_map_dup_agree : model_leaf_map_dup_key_rejected = SwitchGen.leaf_map_dup_key_rejected.
 Proof. vm_compute. reflexivity. Qed.
+Lemma gen_value_kind_checked_agree : model_value_kind_checked = SwitchGen.value_kind_checked.
+Proof. vm_compute. reflexivity. Qed.
+
+(* every explicit panic( the translator finds in the decoder's files has been reviewed *)
+Definition site_eqb (a b : string * string * string) : bool :=
+  String.eqb (fst (fst a)) (fst (fst b)) && String.eqb (snd (fst a)) (snd (fst b)) && String.eqb (snd a) (snd b).
+Lemma gen_panic_sites_reviewed :
+  forallb (fun s => existsb (fun r => site_eqb s (fst r)) reviewed_panic_sites) SwitchGen.panic_sites = true.
+Proof. vm_compute. reflexivity. Qed.
+
 Lemma gen_set_value_clears_agree : model_set_value_clears_invalid = SwitchGen.set_value_clears_invalid.
 Proof. vm_compute. reflexivity. Qed.
 
